@@ -26,18 +26,9 @@ def _skip_ws(t, i):
     return i
 
 
-def _escape(t, i):
-    """t[i] == '\\\\': returns index after the escape, enforcing the escape rule."""
-    if i + 1 >= len(t) or t[i + 1] == "\n" or t[i + 1] == "\r":
-        raise NotInDialect("backslash before newline / at end")
-    j = i + 2
-    if t[i + 1] == "\\":
-        # an escaped backslash must not sit directly before a delimiter (the delimiter would look escaped)
-        if j < len(t) and t[j] in DELIMS:
-            raise NotInDialect("backslash pair before delimiter")
-        if j < len(t) and t[j] == "\\":
-            pass
-    return j
+def _literal(t, i):
+    """Escape rule of the dialect: a delimiter character directly preceded by a backslash is not structural."""
+    return i > 0 and t[i - 1] == "\\"
 
 
 def _check_no_opener(t, a, b):
@@ -46,18 +37,15 @@ def _check_no_opener(t, a, b):
 
 
 def _braced(t, i, allow_quote=True):
-    """t[i] == '{': index after the matching '}' (escapes are pairs; braces nest)."""
+    """t[i] == '{' (structural): index after the matching structural '}'."""
     assert t[i] == "{"
     depth = 0
     n = len(t)
     while i < n:
         c = t[i]
-        if c == "\\":
-            i = _escape(t, i)
-            continue
-        if c == "{":
+        if c == "{" and not _literal(t, i):
             depth += 1
-        elif c == "}":
+        elif c == "}" and not _literal(t, i):
             depth -= 1
             if depth == 0:
                 return i + 1
@@ -71,15 +59,12 @@ def _quoted(t, i):
     n = len(t)
     while i < n:
         c = t[i]
-        if c == "\\":
-            i = _escape(t, i)
-            continue
-        if c == '"':
+        if c == '"' and not _literal(t, i):
             return i + 1
-        if c == "{":
+        if c == "{" and not _literal(t, i):
             i = _braced(t, i)
             continue
-        if c == "}":
+        if c == "}" and not _literal(t, i):
             raise NotInDialect("unbalanced brace in quotes")
         i += 1
     raise NotInDialect("unterminated quote")
@@ -92,6 +77,8 @@ def _value(t, i):
         if i >= n:
             raise NotInDialect("value expected")
         c = t[i]
+        if c in '{"' and _literal(t, i):
+            raise NotInDialect("escaped delimiter where a piece must start")
         if c == "{":
             i = _braced(t, i)
         elif c == '"':
